@@ -77,16 +77,34 @@ class Tr:
             if isinstance(n.value, ast.Name) and env.get(n.value.id) == 'tupF3' \
                     and isinstance(n.slice, ast.Constant) and n.slice.value in (0, 1, 2):
                 return f'{n.value.id}_{n.slice.value}', 'F'
+            if isinstance(n.slice, ast.Tuple) and len(n.slice.elts) == 2 and isinstance(n.slice.elts[0], ast.Slice) \
+                    and n.slice.elts[0].lower is None and n.slice.elts[0].upper is None and n.slice.elts[0].step is None \
+                    and isinstance(n.slice.elts[1], ast.Constant) and n.slice.elts[1].value is None:
+                a, ta = self.expr(n.value, env)          # v[:, None]
+                if ta == 'vecF':
+                    return a, 'col'
             if isinstance(n.value, ast.Name) and isinstance(n.slice, ast.Name) \
                     and env.get(n.value.id) == 'listZ' and env.get(n.slice.id) == 'listZ':
                 return f'(py_take {n.value.id} {n.slice.id})', 'listZ'      # x[idx] with an index vector
             fail(n, 'unsupported subscript')
+        if isinstance(n, ast.Attribute) and n.attr == 'T':
+            a, ta = self.expr(n.value, env)
+            if ta == 'col':
+                return a, 'row'
+            if ta == 'row':
+                return a, 'col'
+            if ta == 'mat':
+                return f'(np_T O {a})', 'mat'
+            fail(n, 'transpose of a non-array')
         if isinstance(n, ast.UnaryOp) and isinstance(n.op, ast.USub):
             t, ty = self.expr(n.operand, env)
             if ty == 'Z':
                 return f'(- {t})', 'Z'
             return f'(nsub O (n0 O) {self.toF(t, ty, n)})', 'F'
         if isinstance(n, ast.BinOp):
+            arr = self.array_binop(n, env)
+            if arr is not None:
+                return arr
             a, ta = self.expr(n.left, env)
             b, tb = self.expr(n.right, env)
             op = type(n.op).__name__
@@ -134,7 +152,101 @@ class Tr:
             fail(n, 'unsupported list comprehension')
         fail(n, 'unsupported expression')
 
+    # ---------------- NumPy 2-D expressions (see the Mat section of PyLib.v) ----------------
+    ARR = ('mat', 'col', 'row', 'vecF')
+
+    def array_binop(self, n, env):
+        op = type(n.op).__name__
+        # A @ B.T
+        if op == 'MatMult':
+            if isinstance(n.right, ast.Attribute) and n.right.attr == 'T':
+                a, ta = self.expr(n.left, env)
+                b, tb = self.expr(n.right.value, env)
+                if ta == 'mat' and tb == 'mat':
+                    return f'(np_matmulT O {a} {b})', 'mat'
+            fail(n, 'only A @ B.T is supported')
+        if op == 'Pow':
+            a, ta = self.expr(n.left, env)
+            if ta == 'mat' and isinstance(n.right, ast.Constant) and n.right.value == 2:
+                return f'(np_mmap (fun x => nmul O x x) {a})', 'mat'
+            fail(n, 'unsupported power')
+        f = dict(Add='nadd', Sub='nsub', Mult='nmul', Div='ndiv').get(op)
+        if f is None:
+            return None
+        a, ta = self.expr(n.left, env)
+        b, tb = self.expr(n.right, env)
+        if ta not in self.ARR and tb not in self.ARR:
+            return None
+        if ta == 'mat' and tb == 'mat':
+            return f'(np_mmap2 ({f} O) {a} {b})', 'mat'
+        if ta == 'col' and tb == 'row':
+            return f'(np_outer ({f} O) {a} {b})', 'mat'
+        if ta == 'row' and tb == 'col':
+            return f'(np_outer (fun x y => {f} O y x) {b} {a})', 'mat'
+        if ta == 'mat' and tb == 'col' and op == 'Div':
+            return f'(np_rowscale_div O {a} {b})', 'mat'
+        if ta in self.ARR and tb in ('Z', 'F'):
+            c = self.toF(b, tb, n)
+            m = 'np_mmap' if ta == 'mat' else 'map'
+            return f'({m} (fun x => {f} O x {c}) {a})', ta
+        if ta in ('Z', 'F') and tb in self.ARR:
+            c = self.toF(a, ta, n)
+            m = 'np_mmap' if tb == 'mat' else 'map'
+            return f'({m} (fun x => {f} O {c} x) {b})', tb
+        fail(n, f'unsupported array arithmetic {ta} {op} {tb}')
+
+    def array_call(self, n, env):
+        name = call_name(n)
+        args, kws = n.args, {k.arg: k.value for k in n.keywords}
+
+        def const(v, val):
+            return isinstance(v, ast.Constant) and v.value == val
+        if name == 'np.sum' and len(args) == 1 and set(kws) == {'axis', 'keepdims'} and const(kws['axis'], 1) \
+                and const(kws['keepdims'], True):
+            a, ta = self.expr(args[0], env)
+            if ta == 'mat':
+                return f'(np_rowsum O {a})', 'col'
+        if kws:
+            return None
+        if name == 'np.dot' and len(args) == 2 and isinstance(args[1], ast.Attribute) and args[1].attr == 'T':
+            a, ta = self.expr(args[0], env)
+            b, tb = self.expr(args[1].value, env)
+            if ta == 'mat' and tb == 'mat':
+                return f'(np_matmulT O {a} {b})', 'mat'
+        if name == 'np.einsum' and len(args) == 3 and isinstance(args[0], ast.Constant):
+            a, ta = self.expr(args[1], env)
+            b, tb = self.expr(args[2], env)
+            if ta == 'mat' and tb == 'mat':
+                if args[0].value == 'ij,ij->i':
+                    return f'(np_rowdot O {a} {b})', 'vecF'
+                if args[0].value in ('ik,jk', 'ik,jk->ij'):
+                    return f'(np_matmulT O {a} {b})', 'mat'
+        if name == 'np.sqrt' and len(args) == 1:
+            a, ta = self.expr(args[0], env)
+            if ta in ('vecF', 'col', 'row'):
+                return f'(map (nsqrt O) {a})', ta
+        if name == 'np.log' and len(args) == 1:
+            a, ta = self.expr(args[0], env)
+            if ta == 'mat':
+                return f'(np_mmap lg {a})', 'mat'
+        if name == 'np.diag' and len(args) == 1:
+            a, ta = self.expr(args[0], env)
+            if ta == 'mat':
+                return f'(np_diag O {a})', 'vecF'
+        if name == 'np.expand_dims' and len(args) == 2 and isinstance(args[1], ast.Constant) and args[1].value in (0, 1):
+            a, ta = self.expr(args[0], env)
+            if ta == 'vecF':
+                return a, ('row' if args[1].value == 0 else 'col')
+        if name == '_extract_triu_' and len(args) == 1:
+            a, ta = self.expr(args[0], env)
+            if ta == 'mat':
+                return f'(np_triu {a})', 'vecF'
+        return None
+
     def call(self, n, env):
+        arr = self.array_call(n, env)
+        if arr is not None:
+            return arr
         name = call_name(n)
         if n.keywords:
             fail(n, 'keyword arguments are not supported')
@@ -268,6 +380,13 @@ class Tr:
             t, ty = self.expr(s.value, env)
             e2 = dict(env); e2[x] = ty
             return f'let {x} := {t} in\n{self.block(rest, e2)}'
+        if isinstance(s, ast.AugAssign) and isinstance(s.target, ast.Name):
+            load = ast.Name(id=s.target.id, ctx=ast.Load())
+            eq = ast.Assign(targets=[ast.Name(id=s.target.id, ctx=ast.Store())],
+                            value=ast.BinOp(left=load, op=s.op, right=s.value))
+            ast.copy_location(eq, s)
+            ast.fix_missing_locations(eq)
+            return self.block([eq] + rest, env)
         if isinstance(s, ast.If):
             # the statements after the `if` are continued in both branches (no merge of environments:
             # each path knows statically which names are None)
@@ -302,7 +421,8 @@ def ind(s):
     return textwrap.indent(s, '  ')
 
 
-COQTY = dict(Z='Z', F='F', optZ='option Z', listZ='list Z', bool='bool')
+COQTY = dict(Z='Z', F='F', optZ='option Z', listZ='list Z', bool='bool', mat='list (list F)', col='list F',
+             row='list F', vecF='list F')
 
 
 def retty(r):
@@ -358,7 +478,7 @@ class Replace(ast.NodeTransformer):
         self.table = table
 
     def visit(self, node):
-        if isinstance(node, ast.expr):
+        if isinstance(node, ast.expr) and not isinstance(getattr(node, 'ctx', None), (ast.Store, ast.Del)):
             key = ast.unparse(node)
             if key in self.table:
                 return ast.copy_location(ast.Name(id=self.table[key], ctx=ast.Load()), node)
@@ -412,17 +532,25 @@ def translate_slice(spec, tree):
         seq += list(loop.body)
     else:
         seq = list(fn.body)
+    full_seq = list(seq)
     params = {name for name, _ in spec['inputs'].values()}
+    # an input denotes the value its expression has right after the statement `input_after` (default: where the
+    # function, resp. its pre-loop part, starts); only later statements belong to the slice
+    if 'input_after' in spec:
+        pos = [i for i, s in enumerate(seq) if ast.unparse(s) == spec['input_after']]
+        if len(pos) != 1:
+            raise Unsupported(f"{spec['func']}: statement after which the inputs are taken not found exactly once: "
+                              f"{spec['input_after']}")
+        seq = seq[pos[0] + 1:]
     needed = set(spec['outputs'])
     selected = []
     for s in reversed(seq):
         st = names_stored(s)
         if st & needed:
-            if not isinstance(s, (ast.Assign, ast.If)):
+            if not isinstance(s, (ast.Assign, ast.If, ast.AugAssign)):
                 fail(s, 'a name of the slice is assigned by an unsupported statement')
             selected.append(s)
-            needed |= (names_read(s) - params)
-        # names that are parameters are never followed further
+            needed |= names_read(s)      # inputs that are re-assigned inside the region are followed as well
     selected.reverse()
     sliced_names = set()
     for s in selected:
@@ -451,12 +579,8 @@ def translate_slice(spec, tree):
                 if isinstance(base, ast.Name) and base.id in sliced_names:
                     fail(s, 'item/attribute assignment to a sliced name')
     # an input (e.g. the shuffled group order) must not be mutated once the slice has started
-    started = False
     for s in seq:
         if s in selected:
-            started = True
-            continue
-        if not started:
             continue
         for c in ast.walk(s):
             if isinstance(c, ast.Call):
@@ -465,11 +589,9 @@ def translate_slice(spec, tree):
                 if isinstance(c.func, ast.Attribute) and isinstance(c.func.value, ast.Name):
                     touched.add(c.func.value.id)
                 if nm in MUTATORS and touched & params:
-                    fail(s, 'an input of the slice is mutated between its statements')
-        if names_stored(s) & params:
-            fail(s, 'an input of the slice is re-assigned between its statements')
+                    fail(s, 'an input of the slice is mutated inside the sliced region')
     # statements the slice relies on without translating them (e.g. where an input comes from)
-    have = [ast.unparse(s) for s in seq]
+    have = [ast.unparse(s) for s in full_seq]
     for want in spec.get('expected_stmts', []):
         if want not in have:
             raise Unsupported(f"{spec['func']}: expected statement not found: {want}")
@@ -505,7 +627,7 @@ From RSA Require Import Prelude Vec PyLib.
 Import ListNotations.
 Open Scope Z_scope.
 Section Gen.
-  Context {{F : Type}} (O : NumOps F).
+  Context {{F : Type}} (O : NumOps F) (lg : F -> F).
 '''
 
 
